@@ -60,6 +60,7 @@ class Engine(ExprMixin, CallMixin, StmtMixin):
         self.cur_fn = ""
         self._oid = 0
         self._feas_solver = None
+        self.syntactic = 0
 
     # ---------------------------------------------------------------- axioms
     def axioms(self) -> List[Any]:
@@ -98,6 +99,9 @@ class Engine(ExprMixin, CallMixin, StmtMixin):
         if z3.is_and(goal) and not self.binders:
             goals = list(goal.children())
         for k, g in enumerate(goals):
+            if not expect_fail and not self.binders and self._known_syntactically(st, g):
+                self.syntactic += 1      # the goal IS one of the hypotheses (up to bound-variable names)
+                continue
             self._oid += 1
             lab = label if len(goals) == 1 else f"{label}.{k}"
             self.obligations.append(Obligation(
@@ -105,6 +109,49 @@ class Engine(ExprMixin, CallMixin, StmtMixin):
                 coarse=f"{self.cur_fn}/{kind}:{lab.split('@')[0]}",
                 kind=kind, fn=self.cur_fn, label=lab, pc=self._scoped_pc(st, lab), goal=g,
                 line=getattr(node, "lineno", 0) or 0, expect_fail=expect_fail))
+
+    def _norm(self, e, memo=None) -> str:
+        """alpha-normal form of a z3 term (bound variables by de Bruijn index, patterns ignored).
+        `memo` maps ast id -> (expr, text) and keeps the expr alive: z3 re-uses ids of freed asts."""
+        if memo is None:
+            memo = {}
+        k = e.get_id()
+        c = memo.get(k)
+        if c is not None:
+            return c[1]
+        if z3.is_quantifier(e):
+            r = ("A" if e.is_forall() else ("E" if e.is_exists() else "L")) + "[" + ",".join(str(e.var_sort(i)) for i in range(e.num_vars())) + "]" + self._norm(e.body(), memo)
+        elif z3.is_var(e):
+            r = f"#{z3.get_var_index(e)}"
+        elif z3.is_app(e):
+            d = e.decl()
+            if e.num_args() == 0:
+                r = e.sexpr()
+            else:
+                r = "(" + d.name() + ":" + str(d.kind()) + " " + " ".join(self._norm(c_, memo) for c_ in e.children()) + ")"
+        else:
+            r = e.sexpr()
+        memo[k] = (e, r)
+        return r
+
+    def _flatten(self, e, out):
+        if z3.is_and(e):
+            for c_ in e.children():
+                self._flatten(c_, out)
+        else:
+            out.append(e)
+
+    def _known_syntactically(self, st, goal) -> bool:
+        memo = {}
+        g = self._norm(goal, memo)
+        for p in st.pc:
+            p = p.expr if isinstance(p, Tagged) else p
+            parts = []
+            self._flatten(p, parts)
+            for q in parts:
+                if self._norm(q, memo) == g:
+                    return True
+        return False
 
     def _scoped_pc(self, st, label):
         out = []
@@ -223,6 +270,9 @@ class Engine(ExprMixin, CallMixin, StmtMixin):
                     st.env[extra.arg] = const(OPAQUE, f"arg_{extra.arg}")
             for r in c.requires:
                 st.assume(self.spec_bool(r, st))
+            for gname, gtext in c.ghost_init.items():
+                st.assume(self.equal(st.env[gname], self.coerce(self.spec_eval(gtext, st), c.ghosts[gname], fn), fn))
+            c_expose = list(getattr(c, "expose", [])) + list(c.ghosts)
             entry_env = dict(st.env)
             pre = St(dict(st.env), dict(st.heap), list(st.pc), None, dict(st.ghost))
             st.pre = pre
@@ -275,7 +325,7 @@ class Engine(ExprMixin, CallMixin, StmtMixin):
         env = dict(entry_env)
         env["result"] = res
         # expose final values of locals declared as ghost-visible
-        for name in getattr(c, "expose", []):
+        for name in list(getattr(c, "expose", [])) + list(c.ghosts):
             if name in o.st.env:
                 env["final_" + name] = o.st.env[name]
         post_st = St(env, o.st.heap, o.st.pc, pre, o.st.ghost)
@@ -290,11 +340,15 @@ class Engine(ExprMixin, CallMixin, StmtMixin):
             self.oblige(o.st, "post-exc", f"no-unexpected-{exc.cls}", z3.BoolVal(False), fn)
             return
         env = dict(entry_env)
+        for name in list(getattr(c, "expose", [])) + list(c.ghosts):
+            if name in o.st.env:
+                env["final_" + name] = o.st.env[name]
         post_st = St(env, o.st.heap, o.st.pc, pre, o.st.ghost)
         pre_eval = St(dict(entry_env), pre.heap, [], None, pre.ghost)
         whens = [self.spec_bool(r.when, pre_eval) if r.when else z3.BoolVal(True) for r in matches]
         self.oblige(o.st, "post-exc", f"{exc.cls}:allowed", z3.Or(*whens), fn)
         for r, wv in zip(matches, whens):
             for k, e in enumerate(r.ensures):
+                e = e[6:] if e.startswith("ghost:") else e
                 self.oblige(o.st, "post-exc", f"{exc.cls}:ensures#{k}", z3.Implies(wv, self.spec_bool(e, post_st)), fn)
         self._frame(c, o, pre, fn, kind="frame-exc")
